@@ -475,6 +475,12 @@ func TestC17Vectors(t *testing.T) {
 				Case{Endpoints: []Endpoint{refuse, refuse, kinds[0]}, Principals: []string{"user_a", "user_b"}, KeyID: "k", Validity: 7200, Identifier: "ssh-user-key"})
 		}
 	}
+	// replies whose entries are plain public keys: only such entries, or mixed with certificates
+	for _, certs := range [][]int{{100}, {100, 101}, {0, 100}, {100, 0, 101}} {
+		plain := Endpoint{Behaviour: "sign", Certs: certs, Comments: make([]string, len(certs))}
+		cases = append(cases, Case{Endpoints: []Endpoint{plain}, Principals: []string{"user_a"}, KeyID: "k", Validity: 3600, Identifier: "ssh-user-key"},
+			Case{Endpoints: []Endpoint{kinds[1], plain, kinds[0]}, Principals: []string{"user_a"}, KeyID: "k", Validity: 3600, Identifier: "ssh-user-key"})
+	}
 	var rec func(prefix []Endpoint, n int)
 	rec = func(prefix []Endpoint, n int) {
 		if len(prefix) == n {
@@ -489,7 +495,7 @@ func TestC17Vectors(t *testing.T) {
 		rec(nil, n)
 	}
 	vh.Enumerate(t, vh.Spec[Case]{Property: "C17", Name: "TestC17Vectors", Exhaustive: true,
-		Rule: "every vector over {signs, RPC error (Unavailable), unparsable key text, no listener} for endpoint lists of length 0..3 (1 + 4 + 16 + 64 = 85 lists), plus 42 lists in which one or two endpoints refuse with each of the texts real CAs send (maximum validity exceeded, unknown key identifier, too many principals, retry hints, rate limit with another endpoint's address) under three status codes in front of a signing endpoint, plus 4 lists whose signing endpoint answers with very long lines (a 130 KiB certificate first, a 64 KiB certificate with a 70 KB comment in the middle); same oracle",
+		Rule: "every vector over {signs, RPC error (Unavailable), unparsable key text, no listener} for endpoint lists of length 0..3 (1 + 4 + 16 + 64 = 85 lists), plus 8 lists whose signing endpoint answers with plain public keys only or mixed with certificates, plus 42 lists in which one or two endpoints refuse with each of the texts real CAs send (maximum validity exceeded, unknown key identifier, too many principals, retry hints, rate limit with another endpoint's address) under three status codes in front of a signing endpoint, plus 4 lists whose signing endpoint answers with very long lines (a 130 KiB certificate first, a 64 KiB certificate with a 70 KB comment in the middle); same oracle",
 		Exec: exec}, cases)
 }
 
